@@ -262,9 +262,12 @@ def _normalize(self):
         f = self.ctx.ix.func("dateparser.languages.locale:Locale._translate_numerals")
         t = " ".join(ast.unparse(f.node).split())
         import re as _re
-        for frag in (r"NUMERAL_PATTERN\.split\(date_string\)", r"if (\w+)\.isdecimal\(\):", r"str\(int\((\w+)\)\)\.zfill\(len\(\1\)\)", r"''\.join\((\w+)\)"):
-            if not _re.search(frag, t):
-                raise AnalysisError(RULE, "_translate_numerals shape changed (missing %r)" % frag)
+        # statement form (loop that rewrites the decimal tokens in place) or expression form (one comprehension inside the join)
+        stmt_form = (r"NUMERAL_PATTERN\.split\(date_string\)", r"if (\w+)\.isdecimal\(\):", r"str\(int\((\w+)\)\)\.zfill\(len\(\1\)\)", r"''\.join\((\w+)\)")
+        expr_form = (r"''\.join\(", r"str\(int\((\w+)\)\)\.zfill\(len\(\1\)\) if \1\.isdecimal\(\) else \1 for \1 in NUMERAL_PATTERN\.split\(date_string\)")
+        if not all(_re.search(frag, t) for frag in stmt_form) and not all(_re.search(frag, t) for frag in expr_form):
+            missing = [frag for frag in stmt_form if not _re.search(frag, t)]
+            raise AnalysisError(RULE, "_translate_numerals shape changed (missing %r)" % missing[0])
 
     def _check_simplify(self):
         f = self.ctx.ix.func("dateparser.languages.locale:Locale._simplify")
